@@ -16,3 +16,35 @@ Theorem C18_publish_iff_push : forall db colname col cuid req,
                 pubs = [mkPub colname (dd_key d1) cuid (dd_duid d1) (dd_end d1)]).
 Proof. exact publish_iff_push. Qed.
 Print Assumptions C18_publish_iff_push.
+
+(* "realtime clients converge by themselves" (Proofs/ProtocolLive.v, over the protocol system of C05): right after an
+   exchange of a client whose answer arrives, that client's checkpoint is the end of the log and it has executed every
+   operation of the log that is not its own, in log order, each once.  A client that syncs whenever it is told that
+   something was pushed (the publish above) has therefore caught up with everything pushed before its sync was served;
+   when no more operations are issued, one answered sync per client after the last push makes all of them agree. *)
+From Orda.Proofs Require Import ClientOrder Protocol ProtocolLate ProtocolLive.
+Theorem C18_answered_sync_catches_up : forall colname col D key ty st i c d0,
+  PInv col D st -> nth_error (ps_cl st) i = Some c -> In d0 (s_dts (ps_db st)) -> dd_duid d0 = D ->
+  (dd_end d0 + N.of_nat (length (pc_buf c)) < big)%N -> (cseq (rec_of d0 (pc_cuid c)) + N.of_nat (length (pc_buf c)) < big)%N ->
+  let st' := pstep colname col D key ty st (PSync i false) in
+  PInv col D st' /\
+  exists c' d0', nth_error (ps_cl st') i = Some c' /\ In d0' (s_dts (ps_db st')) /\ dd_duid d0' = D /\
+    pc_cuid c' = pc_cuid c /\ pc_s c' = dd_end d0' /\
+    pc_exec c' = foreign (pc_cuid c') (logops D (ps_db st')) /\
+    ps_cl st' = upd_nth (ps_cl st) i c' /\
+    (* with nothing to push the exchange leaves the log as it is *)
+    (pc_buf c = [] -> pc_buf c' = [] /\ logops D (ps_db st') = logops D (ps_db st) /\ dd_end d0' = dd_end d0 /\
+                      forall v, cseq (rec_of d0' v) = cseq (rec_of d0 v)).
+Proof. exact answered_sync_catches_up. Qed.
+Print Assumptions C18_answered_sync_catches_up.
+
+(* ... and when nobody has anything left to push ([quiet]: all buffers empty, counters far from wrapping), one answered sync
+   per client — in index order — leaves the log as it is and every client with the whole log executed but its own
+   operations: all agree *)
+Theorem C18_quiet_round_converges : forall colname col D key ty st,
+  PInv col D st -> quiet D st ->
+  let st' := prun colname col D key ty st (map (fun i => PSync i false) (seq 0 (length (ps_cl st)))) in
+  logops D (ps_db st') = logops D (ps_db st) /\
+  forall c, In c (ps_cl st') -> pc_exec c = foreign (pc_cuid c) (logops D (ps_db st')).
+Proof. exact quiet_round_converges. Qed.
+Print Assumptions C18_quiet_round_converges.
